@@ -549,17 +549,18 @@ def parseChunk(raw):  # reading transfer encoded raw
         (yield None)
 
     size, sep, exts = line.partition(b';')
-    try:
-        size = int(size.strip().decode('ascii'), 16)
-    except ValueError:  # bad size
-        raise
+    size = bytes(size.strip())
+    if not size or not all(c in b'0123456789abcdefABCDEF' for c in size):
+        # chunk-size = 1*HEX, int(..., 16) would also accept sign, 0x prefix, underscores
+        raise HTTPException("Invalid chunk size '{0}'".format(size.decode('iso-8859-1')))
+    size = int(size, 16)
 
     if exts:  # parse extensions parameters
         exts = exts.split(b';')
         for ext in exts:
             ext = ext.strip()
             name, sep, value = ext.partition(b'=')
-            parms[name.strip()] = value.strip() or None
+            parms[bytes(name.strip())] = bytes(value.strip()) or None  # hashable
 
     if size == 0:  # last chunk so parse trailing headers if any
         leaderParser = parseLeader(raw=raw,
@@ -589,7 +590,7 @@ def parseChunk(raw):  # reading transfer encoded raw
             (yield None)
 
         if line:  # not empty so raise error
-            raise ValueError("Chunk end error. Expected empty got "
+            raise HTTPException("Chunk end error. Expected empty got "
                      "'{0}' instead".format(line.decode('iso-8859-1')))
 
     (yield (size, parms, trails, chunk))
